@@ -245,6 +245,21 @@ func scaledSentences() (conds []c09Str, cvals val.Item, upds []c09Str, uvals val
 		}
 		upds = append(upds, c09Str{act + " zbigl[1] :nsdec, ss :ssall", "path-add-delete"}, c09Str{"SET s = :five " + act + " zbigm.s :ns9", "path-add-delete"})
 	}
+	// list positions that are hostile or that several actions of one expression compete for: an index taken from a
+	// placeholder or an attribute (negative, fractional, huge, not a number), the same element removed more often
+	// than the list is long, a removed element's list read, copied, added or assigned to by a later clause
+	uvals[":neg"] = val.Num("-1")
+	uvals[":frac"] = val.Num("1.5")
+	uvals[":huge"] = val.Num("99999999999999999999")
+	uvals[":str"] = val.Str("x")
+	for _, u := range []string{"SET l[:neg] = :one", "REMOVE l[:neg]", "SET l[:frac] = :one", "REMOVE l[:frac]", "SET l[:huge] = :one", "REMOVE l[:huge]", "SET l[:str] = :one", "SET l[n] = :one", "REMOVE l[n]",
+		"SET l[-1] = :one", "REMOVE l[-1]", "SET l[1][:neg] = :one", "SET m.li[:neg] = :one",
+		"REMOVE l[0], l[0]", "REMOVE l2[0], l2[0]", "REMOVE l2[0], l2[0], l2[0]", "REMOVE l2[0], l2[1]", "REMOVE l[2][0], l[2][0], l[2][1], l[2][1]", "REMOVE l[3], l[3], l[3], l[3], l[3]",
+		"REMOVE l[0] ADD l2 l", "REMOVE l[0] ADD ss l", "REMOVE l[1], l[1] SET cp = l", "REMOVE l[0] SET cp = l[0]", "REMOVE l2[0] SET l2[0] = :one", "REMOVE l2[0] SET l2[3] = :one", "REMOVE l[0] SET l[3] = :one",
+		"SET l[1] = :one REMOVE l[1]", "SET l2[5] = :one, l2[4] = :five", "SET l2[1] = :one, l2[1] = :five", "REMOVE l2[0] SET cp = list_append(l2, l2)", "REMOVE lnul[0], lnul[2] SET cp = lnul",
+		"REMOVE l[2][0] SET l[2] = l[2]", "REMOVE l[0] DELETE ss l"} {
+		upds = append(upds, c09Str{u, "hostile-list-position"})
+	}
 	upds = append(upds, c09Str{"ADD ss :bigset", "scaled-update"}, c09Str{"DELETE ss :bigset", "scaled-update"}, c09Str{"SET l = list_append(l, :biglist)", "scaled-update"},
 		c09Str{"SET l = list_append(:biglist, l)", "scaled-update"}, c09Str{"SET nu = :biglist", "scaled-update"}, c09Str{"SET l[150] = :one", "scaled-update"}, c09Str{"REMOVE l[150]", "scaled-update"},
 		c09Str{"SET nu = if_not_exists(nope, :biglist)", "scaled-update"})
@@ -345,14 +360,36 @@ func (p *c09) condViaClient(x *res, s c09Str, names map[string]string, values va
 		it2["marker"] = val.Str("written")
 		put := cl.Do(adapt.Op{Kind: adapt.OpPut, Table: spec.Name, Item: it2, Cond: s.s, Names: n2, Values: v2})
 		scan := cl.Do(adapt.Op{Kind: adapt.OpScan, Table: spec.Name, Filter: s.s, Names: n2, Values: v2})
-		x.r.Evals += 2
+		// the same filter where NO item reaches the evaluator: a table without items, and a Query of a partition
+		// that was never written - whether a request is rejected cannot depend on the stored data
+		empty := mon.SpecHashOnly("tbl09e")
+		cl.Do(createOp(empty))
+		scanEmpty := cl.Do(adapt.Op{Kind: adapt.OpScan, Table: empty.Name, Filter: s.s, Names: n2, Values: v2})
+		qv := val.Item{":c09hq": val.Str("never-written")}
+		for k, v := range v2 {
+			qv[k] = v
+		}
+		queryEmpty := cl.Do(adapt.Op{Kind: adapt.OpQuery, Table: spec.Name, KeyCnd: "h = :c09hq", Filter: s.s, Names: n2, Values: qv})
+		x.r.Evals += 4
 		x.r.Counters["client_replays"]++
 		x.set("client-classes", put.Class)
-		wit := map[string]interface{}{"adapter": adapter, "expression": s.s, "derived_by": s.kind, "names": n2, "values": v2, "put": put, "scan": scan}
+		wit := map[string]interface{}{"adapter": adapter, "expression": s.s, "derived_by": s.kind, "names": n2, "values": v2, "put": put, "scan": scan, "scan_empty_table": scanEmpty, "query_empty_partition": queryEmpty}
+		// and the other way round: an expression that is evaluated for a stored item without complaint is not
+		// refused where there is nothing to evaluate it for
+		if scan.Class == adapt.ClsOK {
+			for _, o := range []struct {
+				name string
+				out  adapt.Outcome
+			}{{"scan-of-empty-table", scanEmpty}, {"query-of-empty-partition", queryEmpty}} {
+				if o.out.Class != adapt.ClsOK {
+					x.viol("rejects-without-items-what-it-accepts-with-items", o.name, fmt.Sprintf("[%s] filter %q: Scan over a stored item succeeds, %s fails with %s (%s)", adapter, s.s, o.name, o.out.Class, o.out.Msg), wit)
+				}
+			}
+		}
 		for _, o := range []struct {
 			name string
 			out  adapt.Outcome
-		}{{"put", put}, {"scan", scan}} {
+		}{{"put", put}, {"scan", scan}, {"scan-of-empty-table", scanEmpty}, {"query-of-empty-partition", queryEmpty}} {
 			if o.out.Class == adapt.ClsRuntime {
 				x.viol("client-runtime-panic", o.out.Site, fmt.Sprintf("[%s] %s with expression %q: runtime panic at %s: %s", adapter, o.name, s.s, o.out.Site, o.out.Msg), wit)
 			}
@@ -361,7 +398,13 @@ func (p *c09) condViaClient(x *res, s c09Str, names map[string]string, values va
 			}
 			accepted := o.out.Class == adapt.ClsOK || o.out.Class == adapt.ClsCondFailed
 			if accepted && !sentence {
-				x.viol("client-accepts-non-sentence", o.name, fmt.Sprintf("[%s] %s with expression %q (%s), which is not a sentence, completed with class %s", adapter, o.name, s.s, s.kind, o.out.Class), wit)
+				feature := o.name
+				if refmodel.OnlyPathConditions(s.s, names) {
+					// the only liberty: a nested document path standing alone as a condition, which the evaluator
+					// admits when the path leads to a BOOL (so nothing refuses it when no item is looked at)
+					feature += "~document-path-as-condition"
+				}
+				x.viol("client-accepts-non-sentence", feature, fmt.Sprintf("[%s] %s with expression %q (%s), which is not a sentence, completed with class %s", adapter, o.name, s.s, s.kind, o.out.Class), wit)
 			}
 		}
 	}
